@@ -1478,8 +1478,8 @@ package snaps
 //@   ensures forall i in 0..old(len(skippedTests.values)): skippedTests.values[i] == old(skippedTests.values)[i]
 //@
 // skipSpec: the test of this id (its name is the id up to " - ") was recorded by snaps.Skip*, or is a descendant of a
-// recorded test, or the id does not match the -run filter
-//@ specfun skipSpec(testID Str, runOnly Str, vals Slice<Str>) Bool = (exists i in 0..len(vals): desc(beforeFirst(testID, " - "), vals[i])) || !reMatch(runOnly, testID)
+// recorded test, or the test name does not match the -run filter (finding F8: it was the whole id)
+//@ specfun skipSpec(testID Str, runOnly Str, vals Slice<Str>) Bool = (exists i in 0..len(vals): desc(beforeFirst(testID, " - "), vals[i])) || !reMatch(runOnly, beforeFirst(testID, " - "))
 //@ func testSkipped(testID, runOnly) returns (r)
 //@   mode str
 //@   ensures [spec] r == skipSpec(testID, runOnly, skippedTests.values)
@@ -1487,8 +1487,8 @@ package snaps
 //@   assigns nothing
 //@   let tn = beforeFirst(testID, " - ")
 //@   ensures [skip_protects] (exists i in 0..len(skippedTests.values): desc(tn, skippedTests.values[i])) ==> r
-//@   ensures [only_skip_or_filter] r ==> (exists i in 0..len(skippedTests.values): desc(tn, skippedTests.values[i])) || !reMatch(runOnly, testID)
-//@   ensures [filter] (forall i in 0..len(skippedTests.values): !desc(tn, skippedTests.values[i])) ==> r == !reMatch(runOnly, testID)
+//@   ensures [only_skip_or_filter] r ==> (exists i in 0..len(skippedTests.values): desc(tn, skippedTests.values[i])) || !reMatch(runOnly, tn)
+//@   ensures [filter] (forall i in 0..len(skippedTests.values): !desc(tn, skippedTests.values[i])) ==> r == !reMatch(runOnly, tn)
 //@   loop 1 invariant 0 <= $idx && (forall i in 0..$idx: !desc(testName, skippedTests.values[i])) && testName == tn
 //@
 //@ func isFileSkipped(dir, filename, runOnly) returns (r)
